@@ -123,6 +123,16 @@ class Signal(np.lib.mixins.NDArrayOperatorsMixin):
             casting = kwargs.pop("casting", "same_kind")
             kwargs.pop("order", None)
             kwargs.pop("subok", None)
+            if kwargs.get("dtype") is not None:
+                # ``dtype`` selects the precision the computation is done in;
+                # Dask would only relabel the result.
+                loop = np.dtype(kwargs["dtype"])
+                homogeneous = f"{loop.char * ufunc.nin}->{loop.char * ufunc.nout}"
+                if homogeneous in ufunc.types:
+                    in_arr = tuple(
+                        a.astype(loop) if isinstance(a, (np.ndarray, dask.array.Array)) else a
+                        for a in in_arr
+                    )
 
         if any(isinstance(o, dask.array.Array) for o in out_arr):
             # Dask would rebind an output array to the dtype of the result;
